@@ -8,9 +8,14 @@
 //! The oracle side is `kit::walk` (independent container walkers): exactly one manifest container whose
 //! payload is the model's store, none after removal.
 //!
-//! Mutants caught (tools/mutant_run.sh A <diff> C07 quick): see /verif/mutants/C07-*.diff
-//!   C07-jpeg-seg-size.diff   (MAX_JPEG_MARKER_SIZE 64000 -> 65530: 16-bit segment length overflows)  -> VIOLATION
-//!   C07-riff-keep-old.diff   (RIFF writer keeps the old C2PA chunk when replacing)                    -> VIOLATION
+//! Mutants caught (tools/mutant_run.sh A <diff> C07 quick; each adds keys that do not occur on the unchanged tree):
+//!   C07-jpeg-seg-size.diff  (MAX_JPEG_MARKER_SIZE 64000 -> 65530)          -> VIOLATION "write-error PANIC fmt=Jpeg ..." at n >= 65531, "bfs op-error op=wB PANIC fmt=Jpeg"
+//!   C07-riff-keep-old.diff  (RIFF writer keeps the old C2PA chunk on write) -> VIOLATION "replace-shrink several-containers fmt=Riff", "replace-foreign readback-differs fmt=Riff", "bfs several-containers ..."
+//!
+//! Findings on the unchanged tree (genuine, see the report to the lead):
+//!   remove ... fmt=Riff / bfs ... op=rm fmt=Riff : RiffIO::remove_cai_store_from_stream = write_cai(.., &[]) never drops the C2PA chunk
+//!   raw-store readback-differs fmt=Tiff (n <= 4, little-endian): inline TIFF value treated as an offset
+//!   valid-asset-rejected fmt=Gif (plain text extension header skipped as 11 instead of 13 bytes), fmt=Tiff (big-endian BigTIFF IFD8 sub-IFD)
 
 use kit::embed::{self, is_panic, kind_of_err, load, locations, remove, save};
 use kit::walk;
@@ -240,7 +245,7 @@ fn bfs(run: &Run, a: &Asset, init: &str, depth: usize) -> (u64, u64) {
 
 pub fn run(run: &Run, replay: Option<&Value>) {
     run.rule("per seed asset: (1) every well-formed C2PA store length n in the stated set is written into the bare asset, read back and located by the independent walker; \
-              with the replace-shrink / replace-foreign / remove legs on the quick length set; non-trivial = cases where the write succeeded and both the SDK reader and the independent walker returned exactly the written bytes from exactly one container; \
+              with the replace-shrink / replace-foreign / remove legs on every n <= 1024 and the boundary windows; non-trivial = cases where the write succeeded and both the SDK reader and the independent walker returned exactly the written bytes from exactly one container; \
               (2) every raw (non-JUMBF) string length 1..300 with the weakened oracle 'error or exact bytes'; \
               (3) BFS over {wA(100 B), wB(70001 B), wC(100 B, other content), rm} to the stated depth from {bare, foreign manifest present, handler-rewritten}; states de-duplicated by bytes; non-trivial = transitions whose result satisfied the model.");
     run.assume("store byte strings are well-formed JUMBF superboxes with the C2PA description box (exact LBox) padded by a free box; shorter / arbitrary strings only get the weakened oracle");
@@ -287,18 +292,26 @@ pub fn run(run: &Run, replay: Option<&Value>) {
 
     // ---- (1) lengths -------------------------------------------------------------------------------
     let quick = embed::quick_lengths();
-    let all_len: Vec<usize> = if run.tier.is_thorough() { (embed::MIN_STORE..=200_000).collect() } else { quick.clone() };
-    let qset: std::collections::BTreeSet<usize> = quick.iter().cloned().collect();
+    // the replace-shrink / replace-foreign / remove legs run on every n <= 1024 and on the boundary windows
+    let qset: std::collections::BTreeSet<usize> = quick.iter().cloned().filter(|n| *n <= 1024 || *n > 4096).collect();
     let pres: Vec<Vec<u8>> = seeds.iter().map(|a| initial(a, "foreign").0).collect();
-    run.space(&format!("store lengths: {} seeds x {} lengths ({}); replace/remove legs on the {} quick lengths", seeds.len(), all_len.len(),
-        if run.tier.is_thorough() { "every n in [46,200000]" } else { "every n in [46,4096] and +-8 around 64000k (k<=3), 65536k (k<=2)" }, quick.len()),
-        (seeds.len() * all_len.len()) as u64, true);
-    let total = (seeds.len() * all_len.len()) as u64;
-    par::for_each_index(total, |i| {
-        let ai = (i as usize) % seeds.len();
-        let n = all_len[(i as usize) / seeds.len()];
-        len_case(run, &seeds[ai], &pres[ai], n, qset.contains(&n));
-    });
+    // (seed index, n) pairs. quick: all seeds x quick set. thorough: all seeds x every n <= 20000 (and the quick set), and one
+    // seed per format (+ the structurally different ones) x every n in (20000, 200000].
+    const LONG_RANGE_SEEDS: [&str; 20] = ["jpeg", "png", "gif", "wav", "webp", "avi", "tiff", "svg", "mp3", "flac", "jxl", "mp4", "heic", "c2pa", "jpeg-xmp", "mp4-mdat-first", "tiff-MM-big-2pages", "avi-avix", "mp3-bare", "svg-meta"];
+    let mut cases: Vec<(usize, usize)> = vec![];
+    for (i, a) in seeds.iter().enumerate() {
+        if run.tier.is_thorough() {
+            let top = if LONG_RANGE_SEEDS.contains(&a.name) { 200_000 } else { 20_000 };
+            cases.extend((embed::MIN_STORE..=top).map(|n| (i, n)));
+            cases.extend(quick.iter().filter(|n| **n > top).map(|n| (i, *n)));
+        } else {
+            cases.extend(quick.iter().map(|n| (i, *n)));
+        }
+    }
+    run.space(&format!("store lengths: {} seeds x {}; replace/remove legs on {} lengths (n<=1024 + windows)", seeds.len(),
+        if run.tier.is_thorough() { "every n in [46,20000] + boundary windows, and every n in [46,200000] for 20 seeds (one per format + structural variants)" } else { "every n in [46,4096] and +-8 around 64000k (k<=3), 65536k (k<=2)" }, qset.len()),
+        cases.len() as u64, true);
+    par::for_each(&cases, |(ai, n)| len_case(run, &seeds[*ai], &pres[*ai], *n, qset.contains(n)));
 
     // ---- (2) raw strings -----------------------------------------------------------------------------
     let raws: Vec<usize> = (1..=300).collect();
